@@ -14,6 +14,14 @@ CHECKS = {
    text="All histories of offered counters up to the stated depth over a relative boundary alphabet are executed on the real receive window (Session / GroupCtrStore) and compared step by step with a set-of-accepted-counters reference; states deduplicated on a canonical projection.",
    note="Assumes the window is only reached through post_recv; absolute counter values matter only through their distance to 0 / 2^32-1 (capped at 64); bounded depth.",
    tech="explicit-state BFS over operation histories of the real implementation with a reference model"),
+ "C05": dict(cat="exploration",
+   text="Full product, within the stated catalogs, of ACL entries x fabric placements x accessors x element access declarations x operations x paths, evaluated on the real AccessReq::allow / Accessor::is_endpoint_accessible and compared with an independent reference written from the property text.",
+   note="aux_acl_enabled=false; identifier values outside the catalogs behave like the catalog representatives (renaming symmetry); at most two ACL entries installed at a time.",
+   tech="bounded exhaustive configuration/input enumeration against a reference model"),
+ "C12": dict(cat="model_checking",
+   text="BFS over histories of use / use-with-failing-store / burst-to-next-store-point / restart (check-in: also crash-after-use, invalidate, owed persist) on the three real counters through their real persistence paths over a recording KV store, from stored boundaries absent, small and next to the range wrap; oracles: no value twice, and every value covered by the durable boundary at the moment of use.",
+   note="Fewer than one full range consumed per history; group values count as used when initiate_group returns an exchange carrying them; the check-in application follows the interface contract.",
+   tech="explicit-state BFS over operation/crash histories of the real implementation with a reference model"),
  "C16": dict(cat="exploration",
    text="Bounded exhaustive input enumeration on the real codec: every byte string up to a length bound, a grammar-directed malformed set with boundary length fields up to 2^64-1, every value tree over boundary alphabets round-tripped, and every public derived wire decoder fed with all of these plus single-byte/bit mutations of valid encodings; all public accessors called on each input, with overflow checks on and a hang watchdog.",
    note="Checked build has overflow checks and debug assertions on; values beyond the boundary alphabets, strings above 65537 bytes and trees above 4 nodes are outside the bound.",
